@@ -158,9 +158,11 @@ func (rt *GraphicsPlatform) Push() {
 		return
 	}
 	var el any
-	if len(rt.elements) == 1 {
+	if len(rt.elements) == 1 && !(rt.attr != defaultAttr && hasOwnAttr(rt.elements[0])) {
 		el = rt.elements[0]
 	} else {
+		// also a single element goes into a group if it carries attributes of its
+		// own (the rectangle of clear, the group of gridn) that setAttr would replace
 		el = &Group{Elements: rt.elements}
 	}
 	if rt.attr != defaultAttr {
@@ -172,6 +174,19 @@ func (rt *GraphicsPlatform) Push() {
 
 	rt.SVG.Elements = append(rt.SVG.Elements, el)
 	rt.elements = nil
+}
+
+// hasOwnAttr reports whether el is an element that sets its own style
+// attributes independent of the pen, such as the background rectangle of
+// clear or the line group of gridn.
+func hasOwnAttr(el any) bool {
+	switch e := el.(type) {
+	case *Rect:
+		return e.Attr != Attr{}
+	case *Group:
+		return e.Attr != Attr{}
+	}
+	return false
 }
 
 // Move sets the current cursor position.
